@@ -92,8 +92,9 @@ class EngineBase:
 
     def class_axioms(self):
         """ground + upward-closure facts about the known class hierarchy"""
-        if self._class_axioms is not None:
+        if self._class_axioms is not None and self._class_axioms_n == len(_cls_consts):
             return self._class_axioms
+        self._class_axioms_n = len(_cls_consts)
         ax = []
         names = sorted(n for n in _cls_consts)
         consts = [cls_const(n) for n in names]
